@@ -88,6 +88,10 @@ UNITS = {
             I(RAW, r'^impl < T , A : Allocator > RawTable < T , A >$', 'buckets', impl='RawTable<T>', key='RawTable::buckets'),
             I(RAW, r'^impl < T , A : Allocator > RawTable < T , A >$', 'insert_in_slot', impl='RawTable<T>', key='RawTable::insert_in_slot'),
             I(RAW, r'^impl < T , A : Allocator > RawTable < T , A >$', 'insert', impl='RawTable<T>', key='RawTable::insert'),
+            I(RAW, r'^impl < T , A : Allocator > RawTable < T , A >$', 'erase_no_drop', impl='RawTable<T>', key='RawTable::erase_no_drop'),
+            I(RAW, r'^impl < T , A : Allocator > RawTable < T , A >$', 'erase', impl='RawTable<T>', key='RawTable::erase'),
+            I(RAW, r'^impl < T , A : Allocator > RawTable < T , A >$', 'remove', impl='RawTable<T>', key='RawTable::remove'),
+            I(RAW, r'^impl < T , A : Allocator > RawTable < T , A >$', 'replace_bucket_with', impl='RawTable<T>', key='RawTable::replace_bucket_with'),
         ],
     ),
     # C04 / C02: the scope-guard closure of rehash_in_place (what runs when the hasher panics)
